@@ -20,6 +20,21 @@
 // no call is in flight, a probe of each peer's unpaid balance: Reserve(peer, 0)
 // against available balances -2..15 (refused exactly below the balance).
 //
+// Slow settlement layer (par.slow): no gates for the scenario goroutines; instead every
+// Pay call of the settle worker stays in progress until the controller lets it return:
+//
+//	call       {t, kind: burst|notify, p, x, n}  goroutine t performs n Credits of x back to
+//	           back (or one NotifyPayment); afterwards it has returned ("ret"), waits for room
+//	           in the pay channel ("send": its goroutine is in state "chan send") or for a
+//	           mutex ("blocked"); `done` = PutRetrieveTraffic calls it has made so far
+//	payrelease the Pay call in progress returns
+//	paydrain   Pay calls are let go until the worker is idle and nothing moves any more;
+//	           the event carries the number of Pay calls per peer since the start (npaid)
+//	           and each peer's unpaid balance measured through Reserve(peer, 0) (bal)
+//
+// "Nothing moves" is a positive observation: every goroutine concerned is in a blocked
+// state of the runtime's goroutine dump (chan send / chan receive / mutex) or has finished.
+//
 // Race clause: when this binary is built with -race, scenarios marked
 // par.racecheck are additionally run free (no gates, the same calls grouped by
 // goroutine, several rounds) in a child process of this binary; a report
@@ -42,6 +57,7 @@ import (
 	"sort"
 	"strings"
 	"sync"
+	"sync/atomic"
 	"time"
 
 	"github.com/gauss-project/aurorafs/pkg/accounting"
@@ -73,12 +89,19 @@ type stub struct {
 	thrs  []int64
 	flush chan struct{}
 	idx   map[string]int
+	// slow settlement layer: a Pay call parks until the controller sends on payGo
+	slow     bool
+	inPay    int                 // peer whose Pay call is in progress (0 = none)
+	npaid    [sentinel + 1]int64 // Pay calls per peer
+	payGo    chan struct{}
+	draining bool             // Pay calls return at once (drain)
+	putsBy   map[uint64]int64 // PutRetrieveTraffic calls per calling goroutine
 }
 
 var _ settlement.Interface = (*stub)(nil)
 
 func newStub(ctl *sched.Ctl) *stub {
-	s := &stub{ctl: ctl, flush: make(chan struct{}, 16), idx: map[string]int{}}
+	s := &stub{ctl: ctl, flush: make(chan struct{}, 16), idx: map[string]int{}, payGo: make(chan struct{}), putsBy: map[uint64]int64{}}
 	for i := 1; i <= nPeers; i++ {
 		s.idx[settle.Overlay(i).String()] = i
 	}
@@ -95,6 +118,21 @@ func (s *stub) Pay(ctx context.Context, peer boson.Address, thr *big.Int) error 
 	p := s.peer(peer)
 	if p == sentinel {
 		s.flush <- struct{}{}
+		return nil
+	}
+	if s.slow {
+		s.mu.Lock()
+		s.npaid[p]++
+		if s.draining { // the controller is letting every Pay call go
+			s.mu.Unlock()
+			return nil
+		}
+		s.inPay = p
+		s.mu.Unlock()
+		<-s.payGo
+		s.mu.Lock()
+		s.inPay = 0
+		s.mu.Unlock()
 		return nil
 	}
 	s.mu.Lock()
@@ -144,6 +182,13 @@ func (s *stub) PutRetrieveTraffic(peer boson.Address, x *big.Int) error {
 	if s.ctl == nil {
 		return nil
 	}
+	if s.slow {
+		g := settle.GID()
+		s.mu.Lock()
+		s.putsBy[g]++
+		s.mu.Unlock()
+		return nil
+	}
 	_, err, _ := s.ctl.Gate("put_retrieve", map[string]interface{}{"p": s.peer(peer), "x": x.Int64()})
 	return err
 }
@@ -191,10 +236,12 @@ type call struct {
 	X     int
 	Traff int
 	Avail int
+	N     int // burst: number of credits
 }
 
 func callOf(op map[string]interface{}) call {
-	return call{Kind: kit.Str(op, "kind"), P: kit.Int(op, "p"), X: kit.Int(op, "x"), Traff: kit.Int(op, "traff"), Avail: kit.Int(op, "avail")}
+	return call{Kind: kit.Str(op, "kind"), P: kit.Int(op, "p"), X: kit.Int(op, "x"), Traff: kit.Int(op, "traff"), Avail: kit.Int(op, "avail"),
+		N: kit.Int(op, "n")}
 }
 
 func (c call) run(acc *accounting.Accounting) error {
@@ -202,6 +249,13 @@ func (c call) run(acc *accounting.Accounting) error {
 	switch c.Kind {
 	case "credit":
 		return acc.Credit(context.Background(), peer, uint64(c.X))
+	case "burst":
+		for i := 0; i < c.N; i++ {
+			if err := acc.Credit(context.Background(), peer, uint64(c.X)); err != nil {
+				return err
+			}
+		}
+		return nil
 	case "debit":
 		return acc.Debit(peer, uint64(c.X))
 	case "notify":
@@ -449,7 +503,7 @@ func runForced(sc kit.Scenario, out *kit.Out) error {
 	acc := accounting.NewAccounting(big.NewInt(tol), big.NewInt(thr), settle.Logger(), nil, st)
 	r := &run{acc: acc, st: st, ctl: ctl, out: out, cur: map[int]call{}, blk: map[int]bool{}, thr: thr,
 		fresh: kit.Bool(sc.Par, "fresh"), touched: map[int]bool{}}
-	out.Begin(sc.Scn, kit.Ev{"mode": "forced", "thr": thr, "tol": tol, "fresh": r.fresh, "init": []int64{st.init[1], st.init[2]}, "probe": r.probe()})
+	out.Begin(sc.Scn, kit.Ev{"mode": "forced", "thr": thr, "tol": tol, "fresh": r.fresh, "slow": false, "init": []int64{st.init[1], st.init[2]}, "probe": r.probe()})
 	for _, op := range sc.Ops {
 		t := kit.Int(op, "t")
 		// goroutines that were blocked may have moved on since they were last looked at
@@ -526,6 +580,291 @@ func runForced(sc kit.Scenario, out *kit.Out) error {
 		}
 	}
 	ctl.Kill(errors.New("scenario over"))
+	return nil
+}
+
+// ---------------------------------------------------------------------------------------------
+// slow settlement layer
+// ---------------------------------------------------------------------------------------------
+type sthread struct {
+	gid      uint64
+	c        call
+	running  bool
+	finished int32
+	ret      error
+	arrived  string // as last logged
+	done     int64  // as last logged
+}
+
+type slowRun struct {
+	acc *accounting.Accounting
+	st  *stub
+	out *kit.Out
+	th  map[int]*sthread
+	// goroutine states at the last quiet instant
+	seen map[uint64]string
+}
+
+const slowGrace = 20 * time.Second
+
+// quiet: every goroutine concerned is blocked (or has finished): the settle workers sit in a channel receive (their
+// own pay channel, or the stub's Pay), the scenario goroutines in a channel send or a mutex.  One dump is one
+// instant (the world is stopped for it): a blocked goroutine is only woken by a running one, which would show.
+// Returns the states seen.
+func (r *slowRun) quiet() (map[uint64]string, bool) {
+	state := map[uint64]string{}
+	for _, g := range settle.Goroutines() {
+		state[g.ID] = g.State
+		// (a worker that has not run yet shows only the wrapper NewAccounting started it with)
+		if strings.Contains(g.Stack, "accounting.NewAccounting") && g.State != "chan receive" {
+			return nil, false
+		}
+	}
+	for _, t := range r.th {
+		if !t.running || atomic.LoadInt32(&t.finished) == 1 {
+			continue
+		}
+		st, ok := state[t.gid]
+		if !ok || !(st == "chan send" || settle.LockWait(st)) {
+			return nil, false
+		}
+	}
+	return state, true
+}
+
+func (r *slowRun) waitQuiet() bool {
+	end := time.Now().Add(slowGrace)
+	counters := func() int64 {
+		r.st.mu.Lock()
+		defer r.st.mu.Unlock()
+		n := r.st.npaid[1] + r.st.npaid[2]
+		for _, v := range r.st.putsBy {
+			n += v
+		}
+		return n
+	}
+	for {
+		// two instants in which everything is blocked, with no Pay call and no credit in between
+		if _, ok := r.quiet(); ok {
+			c0 := counters()
+			time.Sleep(200 * time.Microsecond)
+			if st, ok := r.quiet(); ok && counters() == c0 {
+				r.seen = st
+				return true
+			}
+		}
+		if time.Now().After(end) {
+			r.seen = nil
+			return false
+		}
+		time.Sleep(100 * time.Microsecond)
+	}
+}
+
+// where goroutine t is now (as of the last quiet instant)
+func (r *slowRun) status(t *sthread) (arrived string, done int64) {
+	r.st.mu.Lock()
+	done = r.st.putsBy[t.gid]
+	r.st.mu.Unlock()
+	if atomic.LoadInt32(&t.finished) == 1 {
+		return "ret", done
+	}
+	if st, ok := r.seen[t.gid]; ok {
+		if st == "chan send" {
+			return "send", done
+		}
+		if settle.LockWait(st) {
+			return "blocked", done
+		}
+	}
+	return "stuck", done
+}
+
+func (r *slowRun) anyRunning() bool {
+	for _, t := range r.th {
+		if t.running {
+			return true
+		}
+	}
+	return false
+}
+
+// measure: the unpaid balance of a peer as Reserve(peer, 0) shows it (refused exactly when the available balance is
+// below it); only when no call is in flight
+func (r *slowRun) measure(p int) int64 {
+	refused := func(k int64) bool {
+		r.st.setAvail(k)
+		return errors.Is(r.acc.Reserve(settle.Overlay(p), 0), accounting.ErrLowAvailableExceeded)
+	}
+	lo, hi := int64(probeLo), int64(1<<22)
+	if !refused(lo) {
+		return lo
+	}
+	if refused(hi) {
+		return hi + 1
+	}
+	for hi-lo > 1 {
+		mid := (lo + hi) / 2
+		if refused(mid) {
+			lo = mid
+		} else {
+			hi = mid
+		}
+	}
+	return hi
+}
+
+func (r *slowRun) base(ev kit.Ev, tid int, t *sthread) {
+	c := call{Kind: "none"}
+	if t != nil {
+		c = t.c
+	}
+	ev["t"], ev["kind"], ev["p"], ev["x"], ev["traff"], ev["avail"], ev["n"] = tid, c.Kind, c.P, c.X, 0, 0, c.N
+	ev["arrived"], ev["done"], ev["gate"], ev["err"], ev["refused"] = "none", int64(0), "", "", false
+	ev["pays"], ev["paythr"], ev["flushed"], ev["deferred"], ev["probe"] = []int{}, []int64{}, true, true, [][]bool{}
+	r.st.mu.Lock()
+	ev["inpay"], ev["npaid"] = r.st.inPay, []int64{r.st.npaid[1], r.st.npaid[2]}
+	r.st.mu.Unlock()
+	ev["idle"] = !r.anyRunning()
+	ev["bal"] = []int64{}
+}
+
+// logThread fills in where goroutine t is and remembers it
+func (r *slowRun) logThread(ev kit.Ev, tid int, quiet bool) {
+	t := r.th[tid]
+	arrived, done := "stuck", int64(0)
+	if quiet {
+		arrived, done = r.status(t)
+	}
+	ev["arrived"], ev["done"] = arrived, done
+	t.arrived, t.done = arrived, done
+	if arrived == "ret" {
+		t.running = false
+		if t.ret != nil {
+			ev["err"] = t.ret.Error()
+		}
+	}
+	ev["idle"] = !r.anyRunning()
+}
+
+// grants: goroutines other than `acting` that are somewhere else than last logged
+func (r *slowRun) grants(acting int, quiet bool, after string) {
+	for tid := 1; tid <= nThreads; tid++ {
+		t := r.th[tid]
+		if t == nil || !t.running || tid == acting || !quiet {
+			continue
+		}
+		arrived, done := r.status(t)
+		if arrived == t.arrived && done == t.done {
+			continue
+		}
+		ev := kit.Ev{"op": "grant"}
+		r.base(ev, tid, t)
+		r.logThread(ev, tid, true)
+		ev["after"] = after
+		r.out.Emit(ev)
+	}
+}
+
+func (r *slowRun) parked() int {
+	r.st.mu.Lock()
+	defer r.st.mu.Unlock()
+	return r.st.inPay
+}
+
+func (r *slowRun) drain(final bool) {
+	quiet := true
+	released := 0
+	// from now on a Pay call returns at once; the one in progress (if any) is let go; then everything runs until
+	// nothing moves any more
+	setDraining := func(v bool) {
+		r.st.mu.Lock()
+		r.st.draining = v
+		r.st.mu.Unlock()
+	}
+	setDraining(true)
+	for guard := 0; guard < 1000; guard++ {
+		if quiet = r.waitQuiet(); !quiet || r.parked() == 0 {
+			break
+		}
+		r.st.payGo <- struct{}{}
+		released++
+	}
+	setDraining(false)
+	r.grants(0, quiet, "paydrain")
+	ev := kit.Ev{"op": "paydrain"}
+	r.base(ev, 0, nil)
+	ev["final"], ev["released"], ev["quiet"] = final, released, quiet
+	if quiet && !r.anyRunning() {
+		ev["bal"] = []int64{r.measure(1), r.measure(2)}
+	}
+	r.out.Emit(ev)
+}
+
+func runSlow(sc kit.Scenario, out *kit.Out) error {
+	st := newStub(sched.New())
+	st.slow = true
+	thr, tol := int64(kit.Int(sc.Par, "thr")), int64(kit.Int(sc.Par, "tol"))
+	acc := accounting.NewAccounting(big.NewInt(tol), big.NewInt(thr), settle.Logger(), nil, st)
+	r := &slowRun{acc: acc, st: st, out: out, th: map[int]*sthread{}}
+	out.Begin(sc.Scn, kit.Ev{"mode": "slow", "thr": thr, "tol": tol, "fresh": false, "slow": true, "qcap": kit.Int(sc.Par, "qcap"),
+		"init": []int64{0, 0}, "probe": [][]bool{}, "bal": []int64{r.measure(1), r.measure(2)}})
+	drained := false
+	for _, op := range sc.Ops {
+		switch kit.Str(op, "op") {
+		case "call":
+			tid := kit.Int(op, "t")
+			if t := r.th[tid]; t != nil && t.running {
+				ev := kit.Ev{"op": "skipped"}
+				r.base(ev, tid, t)
+				out.Emit(ev)
+				continue
+			}
+			t := &sthread{c: callOf(op), running: true}
+			r.th[tid] = t
+			ready := make(chan struct{})
+			go func() {
+				t.gid = settle.GID()
+				close(ready)
+				t.ret = t.c.run(acc)
+				atomic.StoreInt32(&t.finished, 1)
+			}()
+			<-ready
+			quiet := r.waitQuiet()
+			ev := kit.Ev{"op": "call"}
+			r.base(ev, tid, t)
+			r.logThread(ev, tid, quiet)
+			out.Emit(ev)
+			r.grants(tid, quiet, "call")
+			drained = false
+		case "payrelease":
+			quiet := r.waitQuiet()
+			peer := r.parked()
+			if peer != 0 {
+				st.payGo <- struct{}{}
+				quiet = r.waitQuiet()
+			}
+			ev := kit.Ev{"op": "payrelease"}
+			r.base(ev, 0, nil)
+			ev["rel"], ev["peer"], ev["quiet"] = peer != 0, peer, quiet
+			out.Emit(ev)
+			r.grants(0, quiet, "payrelease")
+			drained = false
+		case "paydrain":
+			r.drain(false)
+			drained = true
+		default:
+			return fmt.Errorf("unknown op %v (slow mode)", op["op"])
+		}
+	}
+	if !drained {
+		r.drain(true)
+	}
+	if r.anyRunning() {
+		ev := kit.Ev{"op": "stuck"}
+		r.base(ev, 0, nil)
+		out.Emit(ev)
+	}
 	return nil
 }
 
@@ -654,6 +993,12 @@ func main() {
 			return settle.Chunked(scs, out)
 		}
 		for _, sc := range scs {
+			if kit.Bool(sc.Par, "slow") {
+				if err := runSlow(sc, out); err != nil {
+					return fmt.Errorf("scenario %d: %w", sc.Scn, err)
+				}
+				continue
+			}
 			if err := runForced(sc, out); err != nil {
 				return fmt.Errorf("scenario %d: %w", sc.Scn, err)
 			}
